@@ -116,6 +116,26 @@ func init() {
 	rules["time.Since"] = func(x *Exec, fr *Frame, st *State, ins ssa.Instruction, sig *types.Signature, args []Value) Value {
 		return Value{T: Fresh("since", "Int")}
 	}
+	// time.NewTimer / time.NewTicker: a new timer object with a new channel C
+	newTimer := func(x *Exec, fr *Frame, st *State, ins ssa.Instruction, sig *types.Signature, args []Value) Value {
+		pt := sig.Results().At(0).Type()
+		et := pt.Underlying().(*types.Pointer).Elem()
+		v := x.doAlloc(st, et, "")
+		su := et.Underlying().(*types.Struct)
+		if i := fieldIndex(su, "C"); i >= 0 {
+			c := x.newRef(st)
+			gSet(st, "chClosed", c, False)
+			gSet(st, "chCloser", c, False)
+			gSet(st, "chExt", c, True)
+			gSet(st, "chLen", c, Int(0))
+			gSet(st, "chSeenClosed", c, False)
+			gSet(st, "chErrSeen", c, False)
+			x.writeLV(st, x.fieldLV(v, et, i), c)
+		}
+		return Value{T: v.T}
+	}
+	rules["time.NewTimer"] = newTimer
+	rules["time.NewTicker"] = newTimer
 	rulePrefixes["statemachine.Run["] = ruleStatemachineRun
 	rules["exponential.(*Backoff).Retry"] = ruleRetry
 	// reflect.TypeOf(x): the dynamic type of x, i.e. its tag (nil for a nil interface)
